@@ -82,6 +82,11 @@ def run(tier, seed):
     obs, crashes = vlib.run_cases(b["drivers"], "TestVersionCases", cases, "c02", env={"VERIF_VPLUGIN": b["vplugin"]},
                                   shards=min(8, vlib.NCPU))
     by = {c["name"]: c for c in cases}
+    for name in vlib.hung_cases(obs):
+        rep.violation("c02:hang", "case %s did not finish within %ss: a call never returned (%s)" % (name, obs[name].get("limit_s"), json.dumps({k: v for k, v in by[name].items() if k != "name"})[:300]),
+                      {"case": by[name], "dump": obs[name].get("dump", "")[:8000]})
+        del obs[name]
+        cases = [c for c in cases if c["name"] != name]
     for name, out in crashes.items():
         rep.violation("c02:crash", "the host process died on version case %s" % name, {"case": by[name], "output": out})
     obs_list = [obs[c["name"]] for c in cases if c["name"] in obs]
